@@ -1,2 +1,18 @@
+use crate::vj;
+use libhaystack::val::*;
 use serde_json::{json, Value as J};
-pub fn run(api: &str, _case: &J) -> J { json!({"bad_api": api}) }
+use std::borrow::Cow;
+
+pub fn run(api: &str, case: &J) -> J {
+    match api {
+        "dis" => {
+            let rec = vj::dict_from(&case["rec"]);
+            let loc: Vec<(String, String)> = case["localized"].as_array().map(|a| a.iter().map(|kv| (vj::uhs(&kv[0]), vj::uhs(&kv[1]))).collect()).unwrap_or_default();
+            let get = |key: &str| -> Option<Cow<'_, str>> { loc.iter().find(|kv| kv.0 == key).map(|kv| Cow::Owned(kv.1.clone())) };
+            let def = if case["def"].is_null() { None } else { Some(Cow::Owned(vj::uhs(&case["def"]))) };
+            let s = dict_to_dis(&rec, &get, def).to_string();
+            json!({"ok": vj::hex(s.as_bytes())})
+        }
+        other => crate::apis13::run(other, case),
+    }
+}
